@@ -232,6 +232,13 @@ class JSONSerializer(AbstractIncrementalPacketSerializer[Any, Any]):
                     },
                 ) from exc
             raise DeserializeError(msg) from exc
+        except (ValueError, RecursionError) as exc:
+            # ValueError: integer literal longer than sys.get_int_max_str_digits()
+            # RecursionError: too many nested arrays/objects
+            msg = f"JSON decode error: {exc}"
+            if self.debug:
+                raise DeserializeError(msg, error_info={"document": document}) from exc
+            raise DeserializeError(msg) from exc
         return packet
 
     @final
@@ -298,6 +305,13 @@ class JSONSerializer(AbstractIncrementalPacketSerializer[Any, Any]):
                         "colno": exc.colno,
                     },
                 ) from exc
+            raise IncrementalDeserializeError(msg, remaining_data) from exc
+        except (ValueError, RecursionError) as exc:
+            # ValueError: integer literal longer than sys.get_int_max_str_digits()
+            # RecursionError: too many nested arrays/objects
+            msg = f"JSON decode error: {exc}"
+            if self.debug:
+                raise IncrementalDeserializeError(msg, remaining_data=remaining_data, error_info={"document": document}) from exc
             raise IncrementalDeserializeError(msg, remaining_data) from exc
         return packet, remaining_data
 
